@@ -1,6 +1,7 @@
 import JunoModel.C01.ProofsSpec
 import JunoModel.C01.ProofsState
 import JunoModel.C01.ModelLegacy
+import JunoModel.C01.ProofsLazy
 /-!
 C01 — property theorems (statements only; helper lemmas are in `Proofs*.lean`).
 Every theorem in this module is an obligation listed in evidence/C01.json with its axioms.
@@ -72,6 +73,63 @@ theorem trie2_batching_independent (k : HashKind) (n : Nat) (ops : List Op) (hv 
         | hash => simp [List.filter, absStep, ih]
     simp only [absRun]
     rw [this ops]
+
+/-- **Temporary tries of the transaction / event / receipt commitments** (height 64, item `i` under key `i`,
+`core.TrieBackend`): the commitment is `Spec.root` of the index ↦ item-hash map (a zero item hash is absent). -/
+theorem commitment_trie_canonical (k : HashKind) (items : List HTerm) :
+    (Trie2.hashRoot k (Trie2.run k (commitmentOps items))).1 = Spec.root k 64 (absRun (commitmentOps items)) := by
+  refine (trie2_canonical k 64 (commitmentOps items) ?_).2.2
+  intro op hop
+  simp only [commitmentOps, List.mem_map] at hop
+  obtain ⟨e, _, rfl⟩ := hop
+  simp [natToPath]
+
+/-- **Restart independence (partial: the node database is abstracted).** `TrieL.run` is trie2 across
+process restarts: `reopen` = `Commit()`, drop the object, `trie2.New` on the database — afterwards every
+node below the root is an unresolved `HashNode`, and insert / delete / the collapse of a binary node into
+an unresolved sibling resolve nodes on demand. For EVERY interleaving of writes, `Hash()` calls and
+restarts the root is the commitment of the final map (so restarts change nothing), the resolved tree
+is canonical and every cached or unresolved hash is sound.
+Partial because an unresolved node carries the subtree the database holds for it (`LNode.lazy h sub`):
+that `Commit` writes, and `resolveNode` reads back, exactly that subtree is not proved here; it is tied
+by the committed-node-set correspondence of `ModelStore.lean`. -/
+theorem trie2_commit_reopen_partial (k : HashKind) (n : Nat) (ops : List LOp)
+    (hv : TrieL.ValidLOps n ops) :
+    TrieL.rootHash k (TrieL.run k ops) = Spec.root k n (labsRun ops) ∧
+    WFRoot (TrieL.erase (TrieL.run k ops)) n ∧ TrieL.CacheOKL k (TrieL.run k ops) :=
+  let h := TrieL.run_invL k n ops hv
+  ⟨TrieL.invL_hash h, h.wf, h.cache⟩
+
+/-- Corollary: histories that differ in where (and whether) the process was restarted, in the order of
+the writes, in overwrites / deletions — same final map, same root. -/
+theorem trie2_restart_independent (k : HashKind) (n : Nat) (ops ops' : List LOp)
+    (hv : TrieL.ValidLOps n ops) (hv' : TrieL.ValidLOps n ops')
+    (hsame : ∀ key, key.length = n → labsRun ops key = labsRun ops' key) :
+    TrieL.rootHash k (TrieL.run k ops) = TrieL.rootHash k (TrieL.run k ops') := by
+  rw [(trie2_commit_reopen_partial k n ops hv).1, (trie2_commit_reopen_partial k n ops' hv').1]
+  exact spec_root_extensional k n _ _ hsame
+
+/-- non-vacuity: writes, restart, delete that collapses a binary node into an UNRESOLVED sibling edge,
+restart, re-insert -/
+example : TrieL.rootHash .pedersen (TrieL.run .pedersen
+    [.put [true, false, true] (.felt 7), .put [true, false, false] (.felt 9), .put [false, true, true] (.felt 3),
+     .reopen, .put [false, true, true] (.felt 0), .hash, .reopen, .put [true, false, true] (.felt 0)])
+    = .add (.h .pedersen (.felt 9) (.felt 4)) 3 := by decide
+
+/-- **Commit + reopen, hashing part (partial).** After `Commit()` and reopening, the in-memory tree is the
+canonical tree `a` with subtrees left unresolved as hash nodes (`Abstracts`); whatever part is resolved,
+and with any sound caches, `Hash()` returns the commitment of `a`'s map. NOT proved (correspondence
+only): that `Commit` writes exactly the nodes from which `resolveNode` rebuilds such a tree, and that
+`insert`/`delete` through unresolved hash nodes commute with resolution (`trie2_commit_reopen` in full). -/
+theorem trie2_commit_reopen_hash_partial (k : HashKind) (n : Nat) (a t : Node)
+    (hw : WFRoot a n) (hab : Abstracts k a t) (hc : CacheOK k t) :
+    (Trie2.hashRoot k t).1 = Spec.root k n (Trie2.get a) := by
+  rw [hashRoot_eq, (hashNode_spec k t hc).1, rawHash_abstracts hab, rawHash_eq_spec k hw]
+
+example : Abstracts .pedersen
+    (.edge [true] (.bin (.value (.felt 1)) (.value (.felt 2)) Flags.new) Flags.new)
+    (.edge [true] (.hash (.h .pedersen (.felt 1) (.felt 2))) ⟨none, false⟩) :=
+  .edge (.unresolved _)
 
 /-! Non-vacuity: concrete histories that exercise an edge split, a binary collapse into the sibling
 edge, a no-op zero write and a cached hash, evaluated by the kernel. -/
@@ -255,13 +313,13 @@ set_option maxRecDepth 100000 in
 theorem legacy_agrees_with_trie2_h2_partial :
     ∀ ops ∈ seqsUpTo 3 (smallOps 2),
       Legacy.runOps 2 .pedersen ops = some (Trie2.hashRoot .pedersen (Trie2.run .pedersen ops)).1 := by
-  decide
+  decide +kernel
 
 set_option maxRecDepth 100000 in
 /-- bounded instance, height 1, ≤ 4 operations -/
 theorem legacy_agrees_with_trie2_h1_partial :
     ∀ ops ∈ seqsUpTo 4 (smallOps 1),
       Legacy.runOps 1 .poseidon ops = some (Trie2.hashRoot .poseidon (Trie2.run .poseidon ops)).1 := by
-  decide
+  decide +kernel
 
 end Juno.C01.Props
